@@ -176,6 +176,7 @@ def stepLine (st : State) (op obs : String) : Option (State × String × String)
     if isOutstanding st t then
       some ((step st (.configure t (← rto.toNat?) (← n.toNat?) (← last.toNat?))).1, "ok", "configure")
     else some (st, "notfound", "configure-notfound")
+  | ["L", _] => some (st, "ok", "setlocal")     -- local credentials are not part of the model: no effect
   | ["K", k] => do
     some ((step st (.setRemoteCreds (← k.toNat?))).1, "ok", "setcreds")
   | _ => none
